@@ -31,7 +31,7 @@ ASSUMPTIONS = ["npy/npz comparisons are bit-exact (format, index arrays, data)",
                "round trip is not judged (pandas cannot represent an empty column name in csv)",
                "what the writer was handed is re-obtained by calling the same FullGrid getter again right after save (getter purity is C08)"]
 EXHAUSTIVE = {"quick": False, "thorough": False}
-MIN_NONTRIVIAL = {"quick": 100, "thorough": 1500}
+MIN_NONTRIVIAL = {"quick": 100, "thorough": 2000}
 
 SAVED = {}      # abspath -> ("array"|"sparse", object handed to the writer)
 TABLES = {}     # abspath -> dict(columns=[...], values=ndarray rows x cols)
@@ -323,8 +323,8 @@ def shards(tier, seed):
     if tier == "quick":
         return [{"kind": "grids", "rseed": seed * 1000 + i, "count": 5} for i in range(4)] + \
                [{"kind": "energy", "rseed": seed * 1000 + 100 + i, "count": 75} for i in range(4)]
-    return [{"kind": "grids", "rseed": seed * 1000 + i, "count": 10} for i in range(15)] + \
-           [{"kind": "energy", "rseed": seed * 1000 + 100 + i, "count": 420} for i in range(12)]
+    return [{"kind": "grids", "rseed": seed * 1000 + i, "count": 25} for i in range(16)] + \
+           [{"kind": "energy", "rseed": seed * 1000 + 100 + i, "count": 1000} for i in range(16)]
 
 
 def run_shard(spec):
